@@ -16,6 +16,66 @@ CHECKS = {
         text="Same space as C01; every AssertionError message is parsed line by line and compared (both inclusions) with the reference report, and the three public query methods are compared with the model's pair sets for every graph and subject/object choice.",
         note="Trusts pbt/models.py and the line grammar in pbt/msgparse.py (taken from the documented message table); module names are identifiers.",
         ref="5 C03"),
+    "C02": dict(
+        technique="grammar-enumerated AST slot paths x import forms (exhaustive to depth 2/3) + Hypothesis project trees, differential against a name-resolution reference model",
+        text="Every statement-list position of the running interpreter's grammar, nested to depth 2 (thorough 3), times every import form is rendered into compiling source files, scanned, and the resulting import edges compared in both directions with the targets the statements name.",
+        note="Trusts ast.unparse/compile of the running CPython and the target-resolution rules written from the property text; imports of own ancestors are outside the claim.",
+        ref="5 C02"),
+    "C04": dict(
+        technique="Hypothesis directory trees + exhaustive small tree families; scan compared with a path-derived reference, sub-scan vs restriction (metamorphic), two entry points (differential)",
+        text="Random and enumerated directory trees are written to disk and scanned from every module_path; module set, hierarchy edges, sub-module queries, the sub-scan/restriction law, the two import renderings and the module-object entry point are compared.",
+        note="Real temporary directories; no symlinks, no x.py next to x/.",
+        ref="5 C04"),
+    "C05": dict(
+        technique="exhaustive small-scope enumeration + Hypothesis against a set-comprehension reference model of the layer semantics",
+        text="Import relations over small trees x layer partitions x named/regex definitions x all layer rules, compared with an independent layer verdict; random larger cases.",
+        note="Trusts pbt/models.layer_analysis; layers list pairwise-unrelated modules; regex layers are $-anchored.",
+        ref="5 C05"),
+    "C06": dict(
+        technique="grammar-based generation of PlantUML text from a random component relation (exhaustive two-component form matrix + Hypothesis), round-trip oracle",
+        text="Diagrams are rendered from a known relation in every documented declaration/reference/arrow form and parsed back; the parsed components and dependencies must equal the relation.",
+        note="Documented subset only (one block per file, aliases on bracketed declarations, no leading blanks).",
+        ref="5 C06"),
+    "C07": dict(
+        technique="exhaustive component/arrow/import enumeration + Hypothesis against the conformance formula; aggregated message compared with the union of per-rule reference reports; naming options compared differentially",
+        text="All arrow relations x all import relations over 2 (thorough 3) components, both modes and both naming options, plus random larger diagrams.",
+        note="Trusts models.diagram_conforms and the documented rule generation for expected failure lines.",
+        ref="5 C07"),
+    "C08": dict(
+        technique="exhaustive string enumeration of the glob-to-regex converter against literal glob semantics + Hypothesis trees with exclusion tuples compared with a pruned-tree reference and glob-vs-regex differential",
+        text="7.4 million (pattern, subject) pairs over a metacharacter alphabet, and filtered scans of random trees compared with the unfiltered scan minus the excluded subtrees.",
+        note="Patterns are matched against str(absolute path).",
+        ref="5 C08"),
+    "C09": dict(
+        technique="metamorphic: scan(level_limit=k) vs quotient of scan(None), and rule verdicts on both (Hypothesis trees + fixed project exhaustively over k/module_path)",
+        text="The flattened architecture must equal the computed quotient graph and preserve the verdict of every sampled rule over names above the limit.",
+        note="Relates two scans of the same tree; quotient computed by pbt/models.quotient.",
+        ref="5 C09"),
+    "C11": dict(
+        technique="metamorphic: compact (regex / partial name / batch) rule vs its expansion on the same architecture; exhaustive over a small tree + Hypothesis",
+        text="Every compact specification is evaluated next to its expansion computed by the harness; verdicts must be equal, empty expansions must raise.",
+        note="Expansion uses re.match over the module list / the harness's own glob semantics.",
+        ref="5 C11"),
+    "C12": dict(
+        technique="algebraic laws between implementation outcomes (duality, negation, decomposition, alias, monotonicity); exhaustive over a small tree incl. related names + Hypothesis batches",
+        text="All 1x1 subject/object pairs (related and identical included) on every import relation of a 5-module tree; monotonicity checked for every single-edge addition from verdict bit-vectors; random batches.",
+        note="No reference model: laws relate runs of the implementation.",
+        ref="5 C12"),
+    "C13": dict(
+        technique="exhaustive call-history enumeration against specification automata (Rule / LayerRule / DiagramRule), chain mutations, Hypothesis absent-name cases, exhaustive entry-point option matrix",
+        text="Every history classified must-error has to raise a non-assertion error and never return a verdict.",
+        note="Automata written from the property text; histories with a repeated layers_that() are not classified.",
+        ref="5 C13"),
+    "C16": dict(
+        technique="exhaustive call-sequence exploration (depth-first, cut at the first rejected call) against LayerBuilderModel / LayerRuleModel + Hypothesis longer sequences",
+        text="Accept/reject per call must agree with the model, and accepted definitions must expose exactly the supplied layers and modules.",
+        note="Behaviour after a rejected call is not judged.",
+        ref="5 C16"),
+    "C17": dict(
+        technique="exhaustive alias subsets on a prefix-colliding tree + Hypothesis, label map compared with a component-wise reference at the intercepted drawing call",
+        text="All 2^9 alias maps on a fixed tree x spacing, plus random trees/alias maps/kwargs; labels, kwargs pass-through, spacing handling and unknown-alias rejection are checked.",
+        note="draw_networkx replaced by a recorder from the harness side.",
+        ref="5 C17"),
 }
 
 NOT_YET = {}
